@@ -22,6 +22,11 @@
  *     on the acceleration the planner settled on): taj = tdj = am/jm, dm = -am, Ta, Td against (am^2/jm + sqrt(Delta) - 2v)/(2am) within the
  *     propagated bound 8 eps*sum|addends of Delta|, peak velocity.  These see a planner quantity that went through a narrower type (1024 eps
  *     in the long double build), which K with C = 256 may not; the trapezoid needs no such group (C = 16).
+ *  R  second request on a used context (seeded change C14-J; see replan_sequence() in h_traj.c): a first plan drawn so that the reached
+ *     values differ from the requested ones, then ONE more request on the same object whose arguments are read back from the recorded fields
+ *     (exactly, with one argument perturbed, limits only with a new move, braking side as the acceleration limit).  The second request goes
+ *     through the same domain filter and the groups K, O1, O2 against ITS limits, plus the twin clause: planned on a fresh 0xA5-filled context
+ *     it must give bitwise the same duration, recorded fields and samples (keys <gen>/replan-readback/...).
  * Calibration, unchanged tree, VERIF_SEED 1..8 quick + 1..3 thorough, f32 and f80, 11.6e6 judged profiles: worst error/bound (monitors
  * "w-ratio.*")  K trapezoid 0.067 (= 1.07 units), K bell 0.006 (= 1.5 units), O1 0.17, O2 0.31, E 0 (no inequality at all).
  */
@@ -43,7 +48,7 @@ typedef long double L;
 #else
 #define W "f64"
 #endif
-enum { REQ_PER_CASE = 48, N_UNIFORM = 48, N_RANDOM = 16, N_ONESTEP = 24 };
+enum { REQ_PER_CASE = 48, REPLAN_PER_CASE = 2, N_UNIFORM = 48, N_RANDOM = 16, N_ONESTEP = 24 };
 static uint64_t vf_ncases(int tier) { return tier ? 40000u : 1600u; }
 
 enum { K_PHASE, K_START, K_END, K_HOLD, K_CPOS, K_CVEL, K_CACC, K_VLIM, K_ALIM, K_JLIM, O_EVAL, O_PLAN, E_DUR, E_KIN, NCL };
@@ -60,7 +65,7 @@ static char cl_arg[2][NCL][120];
 typedef struct { q_t T; int n; q_t d[7], a[7], j[7]; } exref; /* designed phases: duration, acceleration (trapezoid) or jerk (bell) */
 typedef struct
 {
-    int gen, branch, dir, nb;
+    int gen, branch, dir, nb, replan; /* replan: 0 ordinary request, 1 + variant: second request on a used context */
     a_real in[7], T, b[9], p0, p1, v0, v1, vlim, alim, jlim;
     a_trajtrap *tt;
     a_trajbell *tb;
@@ -89,9 +94,10 @@ static void judge(prof const *q, int cl, q_t err, q_t tol, a_real x, char const 
     if (!(err <= tol))
     {
         char key[112], rq[700];
-        snprintf(key, sizeof(key), "%s/w-%s/%s/" W, gen_name[g], cl_name[cl], branch_name[g][q->branch]);
-        vf_viol(key, "%s: %s at x=%La (%.12Lg), T=%La: got %.21Lg, expected %.21Lg, excess %.6Lg > bound %.6Lg [ratio %.4g; eps*S p=%.3Lg v=%.3Lg a=%.3Lg, dt=%.3Lg] branch=%s dir=%+d",
-                req_text(q, rq, sizeof(rq)), what, (L)x, (L)x, (L)q->T, (L)got, (L)want, (L)err, (L)tol, ratio, (L)(EPS * q->Sp), (L)(EPS * q->Sv), (L)(EPS * q->Sa), (L)q->dt, branch_name[g][q->branch], q->dir);
+        if (q->replan) { snprintf(key, sizeof(key), "%s/replan-readback/w-%s/" W, gen_name[g], cl_name[cl]); }
+        else { snprintf(key, sizeof(key), "%s/w-%s/%s/" W, gen_name[g], cl_name[cl], branch_name[g][q->branch]); }
+        vf_viol(key, "%s%s: %s at x=%La (%.12Lg), T=%La: got %.21Lg, expected %.21Lg, excess %.6Lg > bound %.6Lg [ratio %.4g; eps*S p=%.3Lg v=%.3Lg a=%.3Lg, dt=%.3Lg] branch=%s dir=%+d",
+                q->replan ? "[second request on a used context, built from the fields the first plan recorded] " : "", req_text(q, rq, sizeof(rq)), what, (L)x, (L)x, (L)q->T, (L)got, (L)want, (L)err, (L)tol, ratio, (L)(EPS * q->Sp), (L)(EPS * q->Sv), (L)(EPS * q->Sa), (L)q->dt, branch_name[g][q->branch], q->dir);
     }
 }
 static void flush_clauses(void)
@@ -120,10 +126,14 @@ static samp eval_at(prof const *q, a_real x)
     return s;
 }
 static q_t qmax(q_t m, q_t d) { d = fabsq(d); return !(d == d) ? (q_t)INFINITY : d > m ? d : m; }
+static a_real call_gen_on(int gen, void *ctx, a_real const in[7]) /* on the context as it is */
+{
+    return gen ? a_trajbell_gen((a_trajbell *)ctx, in[0], in[1], in[2], in[3], in[4], in[5], in[6]) : a_trajtrap_gen((a_trajtrap *)ctx, in[0], in[1], in[2], in[3], in[4], in[5], in[6]);
+}
 static a_real call_gen(int gen, void *ctx, a_real const in[7])
 {
     memset(ctx, 0xA5, gen ? sizeof(a_trajbell) : sizeof(a_trajtrap)); /* garbage before the generator runs */
-    return gen ? a_trajbell_gen((a_trajbell *)ctx, in[0], in[1], in[2], in[3], in[4], in[5], in[6]) : a_trajtrap_gen((a_trajtrap *)ctx, in[0], in[1], in[2], in[3], in[4], in[5], in[6]);
+    return call_gen_on(gen, ctx, in);
 }
 /* measured conditioning of the request: largest change of a recorded phase time under +-2 ulps of each input */
 static int phase_times(int gen, void const *ctx, q_t t[6])
@@ -139,6 +149,13 @@ static q_t sensitivity(prof const *q)
     void *ctx = malloc(q->gen ? sizeof(a_trajbell) : sizeof(a_trajtrap));
     q_t dt = 0, t0[6], t1[6];
     int const n = phase_times(q->gen, q->gen ? (void *)q->tb : (void *)q->tt, t0);
+    if (q->replan)
+    {
+        /* second request on a used context: the conditioning of the REQUEST is measured between plans made on fresh contexts, so that a plan
+           distorted by what the context held before cannot inflate its own tolerance (as in h_traj.c) */
+        if (!(call_gen(q->gen, ctx, q->in) > 0)) { free(ctx); return 0; }
+        phase_times(q->gen, ctx, t0);
+    }
     for (int i = 0; i < 14; ++i)
     {
         a_real const to = (i & 1) ? (a_real)INFINITY : -(a_real)INFINITY;
@@ -363,30 +380,94 @@ static int bell_feasible(q_t jm, q_t am, q_t p0, q_t p1, q_t v0, q_t v1) /* Biag
     tj1 = sqrtq(dv / jm);
     return tj1 < tj2 ? p1 - p0 > tj1 * (v0 + v1) : p1 - p0 > (v0 + v1) * (tj2 + dv / am) / 2;
 }
-static void run_request(int gen, a_real const in[7], exref const *ex, vf_rng *r)
+/* twin clause (read-back requests): the plan is a function of the request only.  The same request on a fresh 0xA5-filled context must return
+   bitwise the same duration, record bitwise the same fields (value bytes only: an x87 long double has 6 bytes of padding) and give the same
+   pos/vel/acc/jer at the phase boundaries and 8 interior instants.  Holds on the unchanged tree without any tolerance: every path of both
+   generators that returns a positive duration stores all 12 / 14 fields from the arguments. */
+static int same_bits(a_real a, a_real b)
+{
+    size_t const n = sizeof(a_real) == 16 ? 10 : sizeof(a_real);
+    return !memcmp(&a, &b, n);
+}
+static void twin_fresh(prof const *q, a_real ret)
+{
+    static char const *const fld[2][14] = {{"t", "p0", "p1", "v0", "v1", "vc", "ta", "td", "pa", "pd", "ac", "de", "", ""}, {"t", "tv", "ta", "td", "taj", "tdj", "p0", "p1", "v0", "v1", "vm", "jm", "am", "dm"}};
+    int const g = q->gen, nf = g ? 14 : 12;
+    void *fresh = malloc(g ? sizeof(a_trajbell) : sizeof(a_trajtrap));
+    a_real const *fu = g ? (a_real const *)q->tb : (a_real const *)q->tt, *ff = (a_real const *)fresh;
+    a_real const ret2 = call_gen(g, fresh, q->in);
+    char rq[700];
+    char const *const key = g ? "trajbell/replan-readback/differs-from-fresh-context/" W : "trajtrap/replan-readback/differs-from-fresh-context/" W;
+    prof f = *q;
+    int bad = 0;
+    f.tt = (a_trajtrap *)fresh;
+    f.tb = (a_trajbell *)fresh;
+    VF_COUNT("w-replan-readback-twin-fresh-context");
+    if (!same_bits(ret, ret2))
+    {
+        vf_viol(key, "%s returned %La (%.21Lg) on the context that held the plan the arguments were read back from, but %La (%.21Lg) on a fresh garbage-filled context", req_text(q, rq, sizeof(rq)), (L)ret, (L)ret, (L)ret2, (L)ret2);
+        bad = 1;
+    }
+    for (int i = 0; i < nf && !bad; ++i)
+    {
+        if (same_bits(fu[i], ff[i])) { continue; }
+        vf_viol(key, "%s (duration %La): recorded field %s = %La (%.21Lg) on the context that held the plan the arguments were read back from, but %La (%.21Lg) when planned on a fresh garbage-filled context",
+                req_text(q, rq, sizeof(rq)), (L)ret, fld[g][i], (L)fu[i], (L)fu[i], (L)ff[i], (L)ff[i]);
+        bad = 1;
+    }
+    for (int i = 0; i < q->nb + 8 && !bad; ++i)
+    {
+        a_real const x = i < q->nb ? q->b[i] : ret * (a_real)(2 * (i - q->nb) + 1) / 16;
+        samp const a = eval_at(q, x), b = eval_at(&f, x);
+        if (same_bits(a.p, b.p) && same_bits(a.v, b.v) && same_bits(a.a, b.a) && same_bits(a.j, b.j)) { continue; }
+        vf_viol(key, "%s: pos/vel/acc/jer at x=%La are %La %La %La %La on the used context, but %La %La %La %La on a fresh context with bitwise the same fields",
+                req_text(q, rq, sizeof(rq)), (L)x, (L)a.p, (L)a.v, (L)a.a, (L)a.j, (L)b.p, (L)b.v, (L)b.a, (L)b.j);
+        bad = 1;
+    }
+    free(fresh);
+}
+enum { RV_EXACT, RV_LIMIT_X2, RV_LIMIT_HALF, RV_LIMIT_ULP, RV_P1_MOVED, RV_V1_CHANGED, RV_LIMITS_NEW_MOVE, RV_BRAKE_SIDE, RV_ORIG_ONE_LIMIT, RV_N };
+static char const *const rv_name[RV_N] = {"exact", "one-limit-x2", "one-limit-x0.5", "one-limit-1ulp", "p1-moved", "v1-changed", "limits-only-new-move", "braking-side-as-accel-limit", "original-with-one-limit-read-back"};
+
+/* used != NULL: second request on a context that holds a plan (image *used), arguments built from the fields that plan recorded (variant RV_*;
+   differs: 1 the first plan reached other limits than asked for, -1 the first call was declined); an ordinary request in every other respect */
+static void run_request(int gen, a_real const in[7], exref const *ex, vf_rng *r, void const *used, int variant, int differs)
 {
     prof q;
     char rq[700], name[56];
     a_real ret, vm = in[gen ? 2 : 0];
     memset(&q, 0, sizeof(q));
     q.gen = gen;
+    q.replan = used ? 1 + variant : 0;
     memcpy(q.in, in, sizeof(q.in));
     q.tt = (a_trajtrap *)malloc(sizeof(a_trajtrap)); /* exact size: a write past the context hits an ASan red zone */
     q.tb = (a_trajbell *)malloc(sizeof(a_trajbell));
     memset(q.tt, 0xA5, sizeof(a_trajtrap));
     memset(q.tb, 0xA5, sizeof(a_trajbell));
-    vf_log("%s%s", req_text(&q, rq, sizeof(rq)), ex ? " exact regime" : "");
+    vf_log("%s%s%s", req_text(&q, rq, sizeof(rq)), ex ? " exact regime" : "", used ? " on the used context" : "");
     q.dir = in[4] < in[3] ? -1 : 1;
-    ret = call_gen(gen, gen ? (void *)q.tb : (void *)q.tt, in);
+    if (used)
+    {
+        if (gen) { memcpy(q.tb, used, sizeof(a_trajbell)); } else { memcpy(q.tt, used, sizeof(a_trajtrap)); }
+        ret = call_gen_on(gen, gen ? (void *)q.tb : (void *)q.tt, in);
+        VF_COUNT("w-replan.requests");
+    }
+    else { ret = call_gen(gen, gen ? (void *)q.tb : (void *)q.tt, in); }
     vf_count_dyn(gen ? "w-bell.requests" : "w-trap.requests", 1);
     /* domain of the property (DESIGN.md C14); outside it, or when the generator declines, nothing is judged */
     if (!(vm > 0 && in[3] != in[4] && a_real_abs(in[5]) <= vm && a_real_abs(in[6]) <= vm) ||
         (gen ? !(in[0] > 0 && in[1] > 0 && bell_feasible(in[0], in[1], in[3], in[4], in[5], in[6])) : !(q.dir * in[1] > 0 && q.dir * in[2] < 0)))
     {
         vf_count_dyn(gen ? "w-bell.outside-domain" : "w-trap.outside-domain", 1);
+        if (q.replan) { VF_COUNT("w-replan.not-judged.outside-domain-or-declined"); }
         goto unjudged;
     }
-    if (!(ret > 0 && ret - ret == 0)) { vf_count_dyn(gen ? "w-bell.generator-declined" : "w-trap.generator-declined", 1); goto unjudged; }
+    if (!(ret > 0 && ret - ret == 0))
+    {
+        vf_count_dyn(gen ? "w-bell.generator-declined" : "w-trap.generator-declined", 1);
+        if (q.replan) { VF_COUNT("w-replan.not-judged.outside-domain-or-declined"); }
+        goto unjudged;
+    }
     q.T = ret;
     q.p0 = in[3]; q.p1 = in[4]; q.v0 = in[5]; q.vlim = vm;
     if (gen == 0)
@@ -418,6 +499,7 @@ static void run_request(int gen, a_real const in[7], exref const *ex, vf_rng *r)
         q.b[q.nb++] = c->t - c->td; q.b[q.nb++] = c->t - c->td + c->tdj; q.b[q.nb++] = c->t - c->tdj; q.b[q.nb++] = c->t;
         q.branch = c->tv > 0 ? BB_CRUISE : c->ta == 0 && c->taj == 0 ? BB_DECEL : c->td == 0 && c->tdj == 0 ? BB_ACCEL : c->am == in[1] ? BB_AMAX : BB_REDUCED;
     }
+    if (q.replan) { twin_fresh(&q, ret); }
     q.Sv = q.vhat + q.ahat * q.T;
     if (gen && (q.branch == BB_DECEL || q.branch == BB_ACCEL)) { q.Sv += q.jhat * q.T * q.T; q.Sp += q.jhat * q.T * q.T * q.T; } /* refinement (c) */
     q.dt = sensitivity(&q);
@@ -442,12 +524,22 @@ static void run_request(int gen, a_real const in[7], exref const *ex, vf_rng *r)
     {
         /* the +-2 ulp neighbourhood contains a request the generator declines: no finite tolerance, counted, not judged */
         vf_count_dyn(gen ? "w-bell.not-judged.tolerance-unbounded" : "w-trap.not-judged.tolerance-unbounded", 1);
+        if (q.replan) { VF_COUNT("w-replan.not-judged.tolerance-unbounded"); }
         goto unjudged;
     }
     snprintf(name, sizeof(name), "w-%s.branch.%s", gen_short[gen], branch_name[gen][q.branch]);
     vf_count_dyn(name, 1);
     vf_count_dyn(gen ? "w-bell.judged" : "w-trap.judged", 1);
     if (q.C * q.up > (q_t)1e-3 * fabsq((q_t)q.p1 - q.p0) || q.C * q.uv > (q_t)1e-3 * q.vhat) { vf_count_dyn(gen ? "w-bell.weak.tolerance>1e-3-of-distance-or-speed" : "w-trap.weak.tolerance>1e-3-of-distance-or-speed", 1); }
+    if (q.replan)
+    {
+        if (differs < 0) { VF_COUNT("w-replan.judged.after-declined-first-plan"); }
+        else { VF_COUNT("w-replan-with-limits-read-back-from-context"); }
+        vf_count_dyn(gen ? "w-replan.bell.judged" : "w-replan.trap.judged", 1);
+        if (differs > 0) { VF_COUNT("w-replan.judged.first-plan-reached-differs-from-asked"); }
+        snprintf(name, sizeof(name), "w-replan.judged.%s", rv_name[variant]);
+        vf_count_dyn(name, 1);
+    }
     ++vf.evals;
     check_profile(&q, r);
     check_onestep(&q, r);
@@ -604,6 +696,161 @@ static void exact_bell(vf_rng *r, a_real in[7], exref *e)
     in[3] = (a_real)(u * vf_range(r, -8, 8)); in[4] = in[3] + (a_real)(dir * d); in[5] = (a_real)(dir * v[0]); in[6] = (a_real)(dir * v[1]);
 }
 
+/* ------------------------------------------------------------------ R: second request on a used context (compact version of h_traj.c)
+ * First plans: trapezoid - cruise / peak below vm / accel-only with an unreachable v1 / decel-only; bell - cruise with one side below am and the
+ * other side harder, both sides below am, short moves (neither am nor vm reached), single-phase moves; plus the ordinary mix; both directions. */
+static void first_trap(vf_rng *r, a_real in[7])
+{
+    unsigned style = (unsigned)vf_below(r, 8);
+    int dir = vf_chance(r, 1, 2) ? 1 : -1;
+    double vm = vf_logu(r, -3, 3), A = vf_logu(r, -3, 3), D = vf_chance(r, 1, 4) ? A : vf_logu(r, -3, 3), peak, v0, v1, d;
+    if (style >= 6) { make_trap(r, in); return; }
+    peak = style == 0 ? vm : vm * vf_uniform(r, 0.05, 1);
+    v0 = peak * vf_uniform(r, -0.2, 1);
+    v1 = vf_chance(r, 1, 3) ? 0 : peak * vf_uniform(r, -0.5, 1);
+    if (vf_chance(r, 2, 3) && fabs(v1) > fabs(v0)) { double t = v0; v0 = v1; v1 = t; } /* v1 further from the peak than v0 */
+    d = (peak * peak - v0 * v0) / (2 * A) + (peak * peak - v1 * v1) / (2 * D);
+    if (style == 0) { d += vm * (vm / A + vm / D) * vf_logu(r, -3, 2); }
+    else if (style == 4) { v0 = peak * vf_uniform(r, -0.2, 0.95); d = (peak * peak - v0 * v0) / (2 * A); v1 = vm * vf_uniform(r, peak / vm, 1); }
+    else if (style == 5) { v0 = peak; v1 = peak * vf_unit(r); d = (v0 * v0 - v1 * v1) / (2 * D); v1 *= vf_chance(r, 1, 4) ? -vf_unit(r) : vf_unit(r); }
+    if (!(d > 0 && isfinite(d))) { d = vf_logu(r, -6, 6); }
+    in[0] = (a_real)vm; in[1] = (a_real)(dir * A); in[2] = (a_real)(-dir * D);
+    place(r, d, dir, v0, v1, in);
+}
+static void first_bell(vf_rng *r, a_real in[7])
+{
+    unsigned style = (unsigned)vf_below(r, 10);
+    int dir = vf_chance(r, 1, 2) ? 1 : -1;
+    double jm = vf_logu(r, -3, 3), am = vf_logu(r, -3, 3), vm = vf_logu(r, -3, 3), d = vf_logu(r, -6, 6), v0 = pick_vel(r, vm), v1 = pick_vel(r, vm), ta, td, k = 0;
+    if (style >= 8) { make_bell(r, in); return; }
+    if (style < 3)
+    {
+        /* cruise; run-up below am ((vm-v0)*jm < am^2 -> ctx->am = jm*sqrt((vm-v0)/jm) < am), braking side further from vm and harder; style 2 mirrored */
+        if (am * am / jm > vm) { am = sqrt(vm * jm * vf_uniform(r, 0.05, 1)); }
+        v0 = vm - am * am / jm * vf_uniform(r, 0.02, 0.98);
+        v1 = style == 0 ? 0 : vf_uniform(r, -vm, v0);
+        if (style == 2) { double t = v0; v0 = v1; v1 = t; }
+        k = 1 + vf_logu(r, -3, 1.5);
+    }
+    else if (style == 3)
+    {
+        /* cruise; am out of reach on both sides, the two sides reach different accelerations */
+        am = sqrt(2 * vm * jm) * vf_uniform(r, 1, 3);
+        v0 = vf_uniform(r, -vm, vm); v1 = vf_chance(r, 1, 3) ? 0 : vf_uniform(r, -vm, vm);
+        k = 1 + vf_logu(r, -3, 1.5);
+    }
+    else if (style < 6)
+    {
+        /* no cruise: ctx->vm = peak velocity below vm, ctx->am = the reduced acceleration */
+        v0 = vf_chance(r, 1, 2) ? 0 : vm * vf_logu(r, -4, -0.3);
+        v1 = vf_chance(r, 1, 2) ? 0 : vm * vf_logu(r, -4, -0.3);
+        /* entering (leaving) against the direction of travel: the peak velocity the plan records may be below |v0| (|v1|) */
+        if (vf_chance(r, 1, 4)) { v0 = -vm * vf_unit(r); }
+        else if (vf_chance(r, 1, 4)) { v1 = -vm * vf_unit(r); }
+        k = vf_logu(r, -3, -0.01);
+    }
+    else
+    {
+        /* single-phase moves */
+        double hi = vf_chance(r, 1, 8) ? vm : vm * vf_unit(r), lo = vf_chance(r, 1, 8) ? 0 : hi * vf_unit(r), dv = hi - lo, tj1 = sqrt(dv / jm), dm;
+        if (style & 1) { v0 = hi; v1 = lo; } else { v0 = lo; v1 = hi; }
+        dm = tj1 < am / jm ? tj1 * (v0 + v1) : 0.5 * (v0 + v1) * (am / jm + dv / am);
+        if (dm > 0) { d = dm * (1 + vf_logu(r, -9, 0.7)); }
+    }
+    if (k > 0)
+    {
+        ta = (vm - v0) * jm < am * am ? 2 * sqrt((vm - v0) / jm) : am / jm + (vm - v0) / am;
+        td = (vm - v1) * jm < am * am ? 2 * sqrt((vm - v1) / jm) : am / jm + (vm - v1) / am;
+        d = vm * (0.5 * ta * (1 + v0 / vm) + 0.5 * td * (1 + v1 / vm)) * k;
+        if (style == 5) { d = am * am * am / (jm * jm) * vf_logu(r, -4, 0.5); if (!(d > 1e-9 && d < 1e9)) { d = vf_logu(r, -6, 0); } }
+    }
+    if (!(d > 0 && isfinite(d))) { d = 1; }
+    in[0] = (a_real)jm; in[1] = (a_real)am; in[2] = (a_real)vm;
+    place(r, d, dir, v0, v1, in);
+}
+static a_real ulp1(vf_rng *r, a_real x) { return a_real_nextafter(x, vf_chance(r, 1, 2) ? (a_real)INFINITY : -(a_real)INFINITY); }
+/* rb[] = the arguments read back from the fields that carry the names of the parameters (trapezoid: no vm field, the plan runs at |ctx->vc|) */
+static void second_request(int gen, vf_rng *r, a_real const rb[7], a_real brake, a_real const in1[7], int variant, a_real in2[7])
+{
+    int k = (int)vf_below(r, 3); /* which limit */
+    a_real const vm = a_real_abs(gen ? rb[2] : rb[0]), d = rb[4] - rb[3];
+    memcpy(in2, rb, 7 * sizeof(a_real));
+    switch (variant)
+    {
+    case RV_EXACT: break;
+    case RV_LIMIT_X2: in2[k] = 2 * rb[k]; break;
+    case RV_LIMIT_HALF: in2[k] = rb[k] / 2; break;
+    case RV_LIMIT_ULP: in2[k] = ulp1(r, rb[k]); break;
+    case RV_P1_MOVED:
+        k = (int)vf_below(r, 4);
+        in2[4] = k == 0 ? rb[3] + 2 * d : k == 1 ? rb[3] + d / 2 : k == 2 ? ulp1(r, rb[4]) : rb[3] + d * (a_real)vf_logu(r, -1, 1);
+        break;
+    case RV_V1_CHANGED:
+        k = (int)vf_below(r, 6);
+        in2[6] = k == 0 ? (rb[6] == 0 ? vm / 2 * (d < 0 ? -1 : 1) : 0) : k == 1 ? rb[6] / 2 : k == 2 ? -rb[6] : k == 3 ? vm * (a_real)vf_uniform(r, -1, 1) : k == 4 ? ulp1(r, rb[6]) : in1[6];
+        break;
+    case RV_LIMITS_NEW_MOVE:
+    {
+        int dir = vf_chance(r, 1, 2) ? 1 : -1;
+        double nd = vf_chance(r, 1, 2) ? vf_logu(r, -6, 6) : fabs((double)d) * vf_logu(r, -2, 2), w = vm - vm == 0 ? (double)vm : 0;
+        if (!(nd > 0 && isfinite(nd))) { nd = 1; }
+        if (!gen && dir * d < 0) { in2[1] = -rb[1]; in2[2] = -rb[2]; } /* trapezoid: the signs of ac / de follow the direction of travel */
+        {
+            double const w0 = pick_vel(r, w), w1 = pick_vel(r, w);
+            place(r, nd, dir, w0, w1, in2);
+        }
+        break;
+    }
+    case RV_BRAKE_SIDE: in2[1] = -brake; break; /* the braking side of the recorded plan as the acceleration limit of the next one */
+    default: /* the first request once more, with one limit replaced by the value read back */
+        memcpy(in2, in1, 7 * sizeof(a_real));
+        if (gen) { k = 1 + (k & 1); in2[k] = rb[k]; } else { in2[0] = rb[0]; }
+        break;
+    }
+}
+static void replan_sequence(int gen, vf_rng *r)
+{
+    static unsigned char const pick[12] = {RV_EXACT, RV_EXACT, RV_EXACT, RV_EXACT, RV_LIMIT_X2, RV_LIMIT_HALF, RV_LIMIT_ULP, RV_P1_MOVED, RV_V1_CHANGED, RV_LIMITS_NEW_MOVE, RV_BRAKE_SIDE, RV_ORIG_ONE_LIMIT};
+    size_t const n = gen ? sizeof(a_trajbell) : sizeof(a_trajtrap);
+    void *ctx = malloc(n); /* exact size */
+    a_trajtrap const *t = (a_trajtrap const *)ctx;
+    a_trajbell const *b = (a_trajbell const *)ctx;
+    a_real in1[7], in2[7], rb[7], ret1, brake;
+    int const variant = pick[vf_below(r, 12)];
+    int differs;
+    if (gen) { first_bell(r, in1); } else { first_trap(r, in1); }
+    memset(ctx, vf_chance(r, 1, 2) ? 0 : 0xA5, n);
+    vf_log("first plan on the context: %s(%La, %La, %La, %La, %La, %La, %La)", gen ? "a_trajbell_gen[" W "] jm am vm p0 p1 v0 v1" : "a_trajtrap_gen[" W "] vm ac de p0 p1 v0 v1",
+           (L)in1[0], (L)in1[1], (L)in1[2], (L)in1[3], (L)in1[4], (L)in1[5], (L)in1[6]);
+    ret1 = call_gen_on(gen, ctx, in1);
+    VF_COUNT("w-replan.first-plans");
+    if (!(ret1 > 0 && ret1 - ret1 == 0))
+    {
+        /* the context holds whatever the declined call left there; the second request is then a variation of the first one, not a read-back */
+        VF_COUNT("w-replan.first-plan-declined");
+        differs = -1;
+        memcpy(rb, in1, sizeof(rb));
+        brake = gen ? -in1[1] : in1[2];
+    }
+    else if (gen)
+    {
+        rb[0] = b->jm; rb[1] = b->am; rb[2] = b->vm; rb[3] = b->p0; rb[4] = b->p1; rb[5] = b->v0; rb[6] = b->v1;
+        brake = b->dm;
+        differs = b->am != a_real_abs(in1[1]) || b->vm != a_real_abs(in1[2]);
+        if (b->tv > 0 && -b->dm > b->am) { VF_COUNT("w-replan.first.bell.cruise-braking-harder-than-run-up"); }
+    }
+    else
+    {
+        rb[0] = a_real_abs(t->vc); rb[1] = t->ac; rb[2] = t->de; rb[3] = t->p0; rb[4] = t->p1; rb[5] = t->v0; rb[6] = t->v1;
+        brake = t->de;
+        differs = a_real_abs(t->vc) != a_real_abs(in1[0]) || t->v1 != in1[6];
+    }
+    vf_log("first plan returned %La; second request on the same context: '%s'", (L)ret1, rv_name[variant]);
+    second_request(gen, r, rb, brake, in1, variant, in2);
+    run_request(gen, in2, NULL, r, ctx, variant, differs);
+    free(ctx);
+}
+
 static void vf_case(uint64_t case_no, vf_rng *r)
 {
     for (int i = 0; i < REQ_PER_CASE; ++i)
@@ -615,7 +862,9 @@ static void vf_case(uint64_t case_no, vf_rng *r)
         if (exact) { if (gen) { exact_bell(r, in, &e); } else { exact_trap(r, in, &e); } }
         else if (gen) { make_bell(r, in); }
         else { make_trap(r, in); }
-        run_request(gen, in, exact ? &e : NULL, r);
+        run_request(gen, in, exact ? &e : NULL, r, NULL, 0, 0);
     }
+    /* after the ordinary requests (their random stream is as it was before these were added) */
+    for (int i = 0; i < REPLAN_PER_CASE; ++i) { replan_sequence((int)((case_no + (uint64_t)i) & 1), r); }
     flush_clauses();
 }
